@@ -236,6 +236,7 @@ typedef int (*cond_wait_t)(pthread_cond_t*, pthread_mutex_t*);
 typedef int (*cond_timedwait_t)(pthread_cond_t*, pthread_mutex_t*, const struct timespec*);
 typedef int (*rwlock_fn_t)(pthread_rwlock_t*);
 typedef int (*sem_fn_t)(sem_t*);
+typedef int (*spin_fn_t)(pthread_spinlock_t*);
 typedef int (*nanosleep_t)(const struct timespec*, struct timespec*);
 typedef int (*usleep_t)(useconds_t);
 typedef int (*sched_yield_t)(void);
@@ -250,7 +251,8 @@ cond_timedwait_t real_cond_timedwait;
 rwlock_fn_t real_rdlock, real_wrlock, real_rwunlock, real_tryrdlock, real_trywrlock;
 typedef int (*cond_fn_t)(pthread_cond_t*);
 cond_fn_t real_cond_signal, real_cond_broadcast;
-sem_fn_t real_sem_wait;
+sem_fn_t real_sem_wait, real_sem_trywait, real_sem_post;
+spin_fn_t real_spin_lock, real_spin_trylock, real_spin_unlock;
 nanosleep_t real_nanosleep;
 usleep_t real_usleep;
 sched_yield_t real_sched_yield;
@@ -1067,6 +1069,11 @@ void resolve_real() {
   real_cond_signal = (cond_fn_t)dlsym(RTLD_NEXT, "pthread_cond_signal");
   real_cond_broadcast = (cond_fn_t)dlsym(RTLD_NEXT, "pthread_cond_broadcast");
   real_sem_wait = (sem_fn_t)dlsym(RTLD_NEXT, "sem_wait");
+  real_sem_trywait = (sem_fn_t)dlsym(RTLD_NEXT, "sem_trywait");
+  real_sem_post = (sem_fn_t)dlsym(RTLD_NEXT, "sem_post");
+  real_spin_lock = (spin_fn_t)dlsym(RTLD_NEXT, "pthread_spin_lock");
+  real_spin_trylock = (spin_fn_t)dlsym(RTLD_NEXT, "pthread_spin_trylock");
+  real_spin_unlock = (spin_fn_t)dlsym(RTLD_NEXT, "pthread_spin_unlock");
   real_nanosleep = (nanosleep_t)dlsym(RTLD_NEXT, "nanosleep");
   real_usleep = (usleep_t)dlsym(RTLD_NEXT, "usleep");
   real_sched_yield = (sched_yield_t)dlsym(RTLD_NEXT, "sched_yield");
@@ -1948,11 +1955,132 @@ int pthread_rwlock_unlock(pthread_rwlock_t* l) {
   t->in_rt = 0;
   return 0;
 }
-int sem_wait(sem_t* s) {
+// ---- POSIX semaphores: the count stays in the real object (sem_trywait / sem_post never block);
+// waiting and the happens-before edge post -> wait are modelled ----
+static int sem_wait_model(Task* t, sem_t* sm, bool try_only, bool timed, uint32_t pc) {
+  t->in_rt = 1;
+  yield_point(t, EV_MUTEX, 13, pc);
+  SyncObj* s = sync_lookup((uintptr_t)sm, SK_ATOMIC, true);
+  int rc = 0;
+  for (;;) {
+    if (real_sem_trywait(sm) == 0) {
+      acquire(t, s);
+      break;
+    }
+    if (try_only) { errno = EAGAIN; rc = -1; break; }
+    t->cond_signalled = 0;
+    t->timed_wait = timed;
+    block_on(t, (uintptr_t)sm | 1);
+    t->timed_wait = 0;
+    if (timed && !t->cond_signalled) { errno = ETIMEDOUT; rc = -1; break; }
+  }
+  t->in_rt = 0;
+  return rc;
+}
+int sem_wait(sem_t* sm) {
   Task* t = live_task();
-  if (t) unsupported(t, "sem_wait");
   if (!real_sem_wait) resolve_real();
-  return real_sem_wait(s);
+  if (t) return sem_wait_model(t, sm, false, false, PC());
+  return real_sem_wait(sm);
+}
+int sem_trywait(sem_t* sm) {
+  Task* t = live_task();
+  if (!real_sem_wait) resolve_real();
+  if (t) return sem_wait_model(t, sm, true, false, PC());
+  return real_sem_trywait(sm);
+}
+int sem_timedwait(sem_t* sm, const struct timespec*) {
+  Task* t = live_task();
+  if (!real_sem_wait) resolve_real();
+  if (t) return sem_wait_model(t, sm, false, true, PC());
+  return real_sem_wait(sm);
+}
+int sem_clockwait(sem_t* sm, clockid_t, const struct timespec*) {
+  Task* t = live_task();
+  if (!real_sem_wait) resolve_real();
+  if (t) return sem_wait_model(t, sm, false, true, PC());
+  return real_sem_wait(sm);
+}
+int sem_post(sem_t* sm) {
+  Task* t = live_task();
+  if (!real_sem_wait) resolve_real();
+  if (!t) return real_sem_post(sm);
+  t->in_rt = 1;
+  yield_point(t, EV_MUTEX, 14, PC());
+  SyncObj* s = sync_lookup((uintptr_t)sm, SK_ATOMIC, true);
+  release_join(t, s);
+  int rc = real_sem_post(sm);
+  for (int i = 0; i < g.ntasks; ++i) {  // one waiter gets to retry
+    Task& w = g.tasks[i];
+    if (w.state == T_BLOCKED && w.blocked_on == ((uintptr_t)sm | 1)) {
+      w.state = T_RUN;
+      w.blocked_on = 0;
+      w.cond_signalled = 1;
+      break;
+    }
+  }
+  t->in_rt = 0;
+  return rc;
+}
+
+// ---- spin locks: the same model as a (non-recursive) mutex; a real spin under the baton would never end ----
+int pthread_spin_lock(pthread_spinlock_t* l) {
+  Task* t = live_task();
+  if (!real_spin_lock) resolve_real();
+  if (!t) return real_spin_lock(l);
+  t->in_rt = 1;
+  yield_point(t, EV_MUTEX, 0, PC());
+  SyncObj* s = sync_lookup((uintptr_t)l, SK_MUTEX, true);
+  for (;;) {
+    if (s->owner < 0) {
+      s->owner = t->id;
+      s->recursion = 1;
+      acquire(t, s);
+      break;
+    }
+    if (s->owner == t->id) {
+      g.res->deadlock = 1;
+      end_run_abnormally();
+    }
+    g.res->mutex_block++;
+    block_on(t, (uintptr_t)l);
+  }
+  after_acquire(t);
+  t->in_rt = 0;
+  return 0;
+}
+int pthread_spin_trylock(pthread_spinlock_t* l) {
+  Task* t = live_task();
+  if (!real_spin_lock) resolve_real();
+  if (!t) return real_spin_trylock(l);
+  t->in_rt = 1;
+  yield_point(t, EV_MUTEX, 2, PC());
+  SyncObj* s = sync_lookup((uintptr_t)l, SK_MUTEX, true);
+  int rc = EBUSY;
+  if (s->owner < 0) {
+    s->owner = t->id;
+    s->recursion = 1;
+    acquire(t, s);
+    rc = 0;
+  }
+  t->in_rt = 0;
+  return rc;
+}
+int pthread_spin_unlock(pthread_spinlock_t* l) {
+  Task* t = live_task();
+  if (!real_spin_lock) resolve_real();
+  if (!t) return real_spin_unlock(l);
+  t->in_rt = 1;
+  yield_point(t, EV_MUTEX, 1, PC());
+  SyncObj* s = sync_lookup((uintptr_t)l, SK_MUTEX, true);
+  if (s->owner == t->id) {
+    s->owner = -1;
+    s->recursion = 0;
+    release_store(t, s);
+    wake_waiters((uintptr_t)l);
+  }
+  t->in_rt = 0;
+  return 0;
 }
 // sleeping inside an operation (back-off loops): simulated time has no duration to wait for, the
 // sleeper simply lets every other runnable task go first
